@@ -337,6 +337,17 @@ func (g *JSGen) Expr(depth int) string {
 		if g.F.OptChain {
 			g.stat("optchain")
 			obj := paren(sub())
+			if r.Chance(1, 4) {
+				// receivers: which object a call / tagged template through a (parenthesised) chain gets as `this`
+				t := fmt.Sprint(g.tag())
+				recv := "({ n: \"O\", m() { return p(" + t + ", this && this.n); }, i: { n: \"I\", m() { return p(" + t + ", this && this.n); } } })"
+				shapes := []string{"(o?.i.m)()", "(o?.m)()", "(o?.i[\"m\"])()", "(o?.[\"i\"].m)()", "o?.i.m?.()", "(o?.i?.m)()", "(o?.i.m)?.()"}
+				if g.F.TaggedTemplates {
+					shapes = append(shapes, "(o?.i.m)`t${1}`", "(o?.m)`t`", "(o?.[\"i\"].m)`t`", "(o?.i[\"m\"])`${2}t`", "(o?.i?.m)`t`", "(o?.i.i?.m)")
+				}
+				g.stat("optchain-this")
+				return "((o) => " + shapes[r.Intn(len(shapes))] + ")(" + recv + ")"
+			}
 			switch r.Intn(6) {
 			case 0:
 				return obj + "?.x.y"
